@@ -507,8 +507,9 @@ func runCase(lines []string) (answers []string, viols []viol) {
 						continue
 					}
 					if e.b == b && e.k >= lo && e.k < hi && e.k < upto && iterated(e) {
-						if pv, ok := pend[bk{b, e.k}]; ok && pv != 0 {
-							// a key written in this execution was force-read by Put (checked through wset-not-in-rset)
+						if _, ok := pend[bk{b, e.k}]; ok {
+							// a key written or deleted in this execution is shadowed by the write set; outside the
+							// transient bucket Put has force-read it, which is checked through wset-not-in-rset
 							continue
 						}
 						mustRead[bk{b, e.k}] = "iterated by Select " + strings.Join(w[2:], " ")
@@ -824,7 +825,7 @@ func main() {
 	exLen, exLenSmall := 3, 4
 	randCases := 2000
 	if thorough {
-		exLen, exLenSmall = 4, 5
+		exLen, exLenSmall = 5, 5
 		randCases = 50000
 	}
 	exCount := 0
@@ -844,7 +845,9 @@ func main() {
 	}
 	for _, w := range exWorlds {
 		rec(w, exAlphabet(false), nil, 0, exLen, 1)
-		rec(w, exAlphabet(true), nil, 0, exLenSmall, exLen+1) // longer programs over the reduced scan alphabet
+		if exLenSmall > exLen {
+			rec(w, exAlphabet(true), nil, 0, exLenSmall, exLen+1) // longer programs over the reduced scan alphabet
+		}
 	}
 	// 2. random programs ≤ 15 ops over ≤ 8 keys, 4 buckets incl. the transient one
 	for i := 0; i < randCases; i++ {
